@@ -19,7 +19,6 @@ import (
 	"encoding/base64"
 	"fmt"
 	"maps"
-	"sort"
 	"strings"
 	"sync"
 
@@ -65,9 +64,8 @@ func ToCatalog(rows []any, ident string, identRight string, joinExpr sqlparser.E
 	if err != nil {
 		return nil, err
 	}
-	sort.Slice(columns, func(i, j int) bool {
-		return columns[i] > columns[j]
-	})
+	// the columns stay in the order of the ON conjuncts: both sides of the join list them in that order, so the
+	// i-th column of one side is compared with the i-th column of the other
 	mappedColumns := make(map[string]string)
 	for _, column := range columns {
 		mappedColumns[column] = strings.ReplaceAll(column, "'", "")
@@ -568,7 +566,7 @@ func extractJoinColumns(ident string, identRight string, expr sqlparser.Expr) ([
 		}
 	}
 
-	return removeDuplicates(columns), nil
+	return columns, nil
 }
 
 func removeDuplicates(slice []string) []string {
